@@ -290,6 +290,8 @@ func writeExpr(b *strings.Builder, e Expr) {
 		b.WriteString("boom(")
 		b.WriteString(strconv.Itoa(e.ID))
 		b.WriteString(")")
+	case HostNilFunc:
+		b.WriteString("nilfn")
 	case ChanOf:
 		b.WriteString("mkch(")
 		writeExprs(b, e.Elems)
@@ -311,6 +313,8 @@ func writeExpr(b *strings.Builder, e Expr) {
 		switch fn := e.Fn.(type) {
 		case Var:
 			b.WriteString(fn.Name)
+		case HostNilFunc:
+			b.WriteString("nilfn")
 		case *FuncLit:
 			writeExpr(b, fn)
 		default:
